@@ -443,7 +443,10 @@ fn check_cmd(a: &[String]) -> i32 {
         }
         let rs = rng::run_seed(seed, tag, f.index);
         let t = plan.generate(rs, f.index, thorough);
-        let min = minimise::minimise_in_child(&t, plan.mask & check::pbit(id), id, &f.oracle, 3000, &exe, &vd);
+        // budget in executions, scaled so that long traces do not take minutes to shrink
+        let tl = t.conns.iter().map(|c| c.wire.len()).sum::<usize>() + t.ops.iter().map(|o| o.buf.len()).sum::<usize>();
+        let budget = (40_000_000 / tl.max(1)).clamp(60, 3000);
+        let min = minimise::minimise_in_child(&t, plan.mask & check::pbit(id), id, &f.oracle, budget, &exe, &vd);
         // known finding?
         let text = min.to_json().compact();
         if let Some(k) = known.iter().find(|k| k.prop == id && !k.fixed && k.matches(&min, &text)) {
